@@ -1,8 +1,55 @@
 (** C19: @skip/@include behave as textual deletion.  Statements only; proofs are in Gql/Proofs*.v. *)
 From Coq Require Import List String Bool.
-From Thunder Require Import Lib.Json Gql.Types Gql.Value Gql.Query Gql.Ref Gql.Exec Gql.ProofsDirective Gql.Witness Gql.ProofsWitness.
+From Thunder Require Import Lib.Json Gql.Types Gql.Value Gql.Query Gql.Ref Gql.Exec Gql.ProofsDirective
+  Gql.ProofsRef Gql.ProofsMain Gql.ProofsPrune Gql.ProofsParsePrune Gql.Witness Gql.ProofsWitness.
 Import ListNotations.
 Open Scope string_scope.
+
+(** THE PROPERTY.  For every schema, data graph, variable binding and query whose directives are well
+    formed (boolean conditions, literal or from variables; no directive twice on a node): the query and
+    its textually pruned form (every node excluded by its directives deleted, the directives dropped from
+    the rest) are both accepted by the parser and, under every pair of schedules, Execute returns the
+    same data for both - the reference result.  Object and union parents, fields, inline fragments and
+    fragment spreads alike.  [ids_wf]: the identities of the parser's *SelectionSet objects are distinct
+    (a fact about pointers, checked on every generated case).  The last three hypotheses are those of
+    C01's theorem: the reference evaluation raises nothing, addresses each node once, and fits the
+    rendering fuel. *)
+Theorem prune_preserves_execution : forall S vs q fuel rf root s sched sched',
+  directives_wellformed vs q = true -> ids_wf q = true ->
+  parse vs q = Some s ->
+  snd (eval_ref S fuel s root) = [] ->
+  NoDup (map fst (ent [] (fst (eval_ref S fuel s root)))) ->
+  jdepth (fst (eval_ref S fuel s root)) <= Datatypes.S rf ->
+  exists s' st0 st0',
+    parse vs (prune vs q) = Some s' /\
+    init fixed S s root = inl st0 /\ init fixed S s' root = inl st0' /\
+    (complete (run_sched fixed S fuel sched st0) = true ->
+     complete (run_sched fixed S fuel sched' st0') = true ->
+     finish rf (run_sched fixed S fuel sched st0) = finish rf (run_sched fixed S fuel sched' st0') /\
+     finish rf (run_sched fixed S fuel sched st0) = Some (ROk (fst (eval_ref S fuel s root)))).
+Proof. exact ProofsParsePrune.prune_preserves_execution. Qed.
+Print Assumptions prune_preserves_execution.
+
+(** The same for the reference semantics alone, without side conditions on the result (failing
+    resolvers included: the data and the list of needed failures coincide). *)
+Theorem prune_preserves_reference : forall S vs q fuel root s,
+  directives_wellformed vs q = true -> ids_wf q = true ->
+  parse vs q = Some s ->
+  exists s', parse vs (prune vs q) = Some s' /\ eval_ref S fuel s root = eval_ref S fuel s' root.
+Proof. exact ProofsParsePrune.prune_preserves_reference. Qed.
+Print Assumptions prune_preserves_reference.
+
+(** Spread independence: two queries with the same pruned form have the same result - the directives
+    on one spread of a fragment matter only through that spread's own verdict, never for another spread
+    of the same fragment. *)
+Theorem spread_independence : forall S vs q q' fuel root s s',
+  directives_wellformed vs q = true -> ids_wf q = true ->
+  directives_wellformed vs q' = true -> ids_wf q' = true ->
+  prune vs q = prune vs q' ->
+  parse vs q = Some s -> parse vs q' = Some s' ->
+  eval_ref S fuel s root = eval_ref S fuel s' root.
+Proof. exact ProofsParsePrune.same_pruned_form_same_reference. Qed.
+Print Assumptions spread_independence.
 
 (** A node is kept by ShouldIncludeNode (as repaired) exactly when every directive on it allows it:
     with both directives, iff @skip does not exclude it and @include does not exclude it; conditions
@@ -41,6 +88,15 @@ Theorem spread_independence_original_refuted :
   /\ result_field "b" (exec_fifo fixed w_schema [] w_f7 w_root) = result_field "b" (exec_fifo fixed w_schema [] w_f7' w_root).
 Proof. exact f7_independence_witness. Qed.
 Print Assumptions spread_independence_original_refuted.
+
+Example theorem_hypotheses_satisfiable :
+  directives_wellformed [] w_f7 = true /\ ids_wf w_f7 = true /\ wt_of w_f7 = [(10, 4)] /\
+  (exists s, parse [] w_f7 = Some s /\ snd (eval_ref w_schema 40 s w_root) = []) /\
+  prune [] w_f7 <> w_f7.
+Proof.
+  split; [reflexivity|]. split; [reflexivity|]. split; [reflexivity|].
+  split; [eexists; split; [vm_compute; reflexivity|vm_compute; reflexivity]|]. discriminate.
+Qed.
 
 Example hypotheses_satisfiable :
   dirs_wf [("v", JBool true)] [SDir "include" (CVar "v"); SDir "skip" (CLit (JBool false))] = true.
